@@ -151,12 +151,13 @@ func C01(r *drv.Run) {
 	if !quick(r) {
 		nprog, ntext = 150000, 16
 	}
-	r.Rule = "programs: seeded random over the core search language (literals, not, caseless, classes, anchors, in/not in, all loop forms greedy and fewest, or, groups, captures, back-references, inline subroutines incl. guarded recursion, set-to-pattern with/without predicate) + exhaustive small programs; inputs derived from each program (sampled matches, prefixes, one-byte edits, concatenations, noise). Oracle: reference backtracker (ref/), cross-checked by Go regexp on the regular subset. Non-trivial = reference found >= 1 match AND the VM hook saw >= 1 resume from a saved choice point; distinct by (program, text)."
+	r.Rule = "programs: seeded random over the core search language (literals, not, caseless, classes, anchors, in/not in, all loop forms greedy and fewest, or, groups, captures, back-references, inline subroutines incl. guarded recursion, set-to-pattern with/without predicate) + exhaustive small programs; inputs derived from each program (sampled matches, prefixes, one-byte edits, concatenations, noise); plus a deep family: 8 fixed shapes (greedy / lazy loop then literal, loop of a group with an optional part, recursion depth, recursion inside a loop, many matches, capture in a deep loop then back-reference, negated-list run) on structured inputs sized k = 10, 63..65, 127..129, 255..257, 511..513 (thorough: ..1400) repetitions, and 5 counted-loop shapes whose bounds are k = 15..17, 31..33, 63..65, 100, 127..129 (thorough: ..300) on inputs with k-1, k, k+1, 2k, 2k+1 repetitions; plus caseless literals beyond ASCII (every ordered pair of 26 letters from Greek / Latin-1 / Cyrillic / digraph folding orbits, alone, in a loop with an alternative, in a list; five words). Oracle: reference backtracker (ref/), cross-checked by Go regexp on the regular subset. Non-trivial = reference found >= 1 match AND the VM hook saw >= 1 resume from a saved choice point; distinct by (program, text)."
 	r.Assumptions = []string{
 		"reference matcher (harness/ref) is the meaning of the pattern as written; it is cross-checked against Go regexp on the regular subset on every case",
 		"word start at end of input / word end at offset 0 / word end at end of input after a non-word byte are don't-care (either answer accepted)",
-		"inputs <= 14 bytes (legitimate backtracking is exponential)",
-		"out of generator scope: empty string literal, multi-byte list items and ranges, whole line/word/file, non-ASCII bytes in patterns, captures or subroutine definitions under loops with a minimum >= 1 (vore rejects those: name clash)",
+		"generated programs run on inputs <= 14 bytes (legitimate backtracking is exponential); the deep family uses fixed linear-time shapes on inputs up to ~3 000 bytes",
+		"`caseless` is undescribed in the documentation (TODO): it is taken to be Unicode simple case folding of equally long byte strings, which is what the pinned code does (plain ASCII folding on ASCII); checked on every ordered pair of 26 letters incl. the folding orbits with two lower-case members",
+		"out of generator scope: whole line/word/file (C03, C09), non-ASCII bytes in generated patterns, subroutine definitions under loops with a minimum >= 1 (vore rejects those: name clash)",
 	}
 
 	// exhaustive small programs
@@ -190,8 +191,17 @@ func C01(r *drv.Run) {
 			Check: func(res *wire.Result) { checkSpansCase(r, cs, res, sc, "") }}
 	})
 
+	c01Deep(r)
+	c01Caseless(r)
+
 	// coverage floors: a run that observed nothing cannot pass
 	if r.NViolations() == 0 {
+		if r.Counter("caseless_non_ascii_runs_with_match") == 0 {
+			r.Inconclusive("coverage floor: no caseless literal beyond ASCII matched")
+		}
+		if r.MaxOf("deep_backtrack_depth") < 500 || r.MaxOf("deep_call_depth") < 250 || r.MaxOf("deep_matches_in_one_run") < 500 {
+			r.Inconclusive("coverage floor: the deep family did not reach backtrack depth 500 / call depth 250 / 500 matches in one run")
+		}
 		for _, k := range relocKindsWanted {
 			if r.Counter("reloc_"+k) == 0 {
 				r.Inconclusive("relocated instruction kind never exercised: " + k)
@@ -286,4 +296,211 @@ func enumSmallPrograms() []*gen.Program {
 	}
 	_ = ref.CodeLike
 	return progs
+}
+
+// ---- deep family: the same semantics at stack depths, loop counts and match counts far beyond what 14-byte
+// inputs reach (backtrack stack, call stack, loop stack, match list; sizes at and next to powers of two) -----
+
+type c01DeepTemplate struct {
+	name  string
+	body  []gen.Node
+	texts func(k int) []string
+}
+
+func rep(s string, n int) string {
+	out := make([]byte, 0, len(s)*n)
+	for i := 0; i < n; i++ {
+		out = append(out, s...)
+	}
+	return string(out)
+}
+
+func c01DeepTemplates() []c01DeepTemplate {
+	ab := gen.In{Items: []gen.ListItem{{Kind: "lit", S: "a"}, {Kind: "lit", S: "b"}}}
+	x, cc := gen.Lit{S: "x"}, gen.Lit{S: "c"}
+	star := func(b gen.Node, lazy bool) gen.Loop { return gen.Loop{Min: 0, Max: -1, Form: "atleast", Lazy: lazy, Body: b} }
+	return []c01DeepTemplate{
+		{"greedy-loop-then-literal", []gen.Node{x, star(ab, false), cc}, func(k int) []string {
+			return []string{"x" + rep("ab", k) + "c", "x" + rep("ab", k), "x" + rep("ab", k/2) + "c" + rep("ba", k/2) + "c!", rep("ab", k) + "xc"}
+		}},
+		{"lazy-loop-then-literal", []gen.Node{x, star(gen.Class{Kind: "any"}, true), cc}, func(k int) []string {
+			return []string{"x" + rep("ab", k) + "c", "x" + rep("ab", k), "x" + rep("a", k) + "cxc"}
+		}},
+		{"loop-of-group-with-optional", []gen.Node{x, gen.Loop{Min: 1, Max: -1, Form: "atleast", Body: gen.Seq{Items: []gen.Node{gen.Lit{S: "a"}, gen.Loop{Min: 0, Max: 1, Form: "maybe", Body: gen.Lit{S: "b"}}}}}, cc}, func(k int) []string {
+			return []string{"x" + rep("ab", k) + "c", "x" + rep("a", k) + "c", "x" + rep("ab", k) + "d"}
+		}},
+		{"recursion-depth", []gen.Node{gen.SubDef{Name: "s", Body: []gen.Node{gen.Lit{S: "("}, gen.Loop{Min: 0, Max: 1, Form: "maybe", Body: gen.SubCall{Name: "s"}}, gen.Lit{S: ")"}}}}, func(k int) []string {
+			return []string{rep("(", k) + rep(")", k), rep("(", k) + rep(")", k-1), "a" + rep("(", k/2) + rep(")", k/2) + "b" + rep("(", 3) + rep(")", 3)}
+		}},
+		{"recursion-inside-loop", []gen.Node{gen.SubDef{Name: "s", Body: []gen.Node{gen.Lit{S: "("}, star(gen.Or{Alts: []gen.Node{gen.SubCall{Name: "s"}, gen.Class{Kind: "letter"}}}, false), gen.Lit{S: ")"}}}}, func(k int) []string {
+			return []string{rep("(a", k) + rep(")", k), rep("(a(b)", k/2) + rep(")", k/2), rep("(ab)", k)}
+		}},
+		{"many-matches", []gen.Node{gen.Lit{S: "ab"}}, func(k int) []string { return []string{rep("ab", k), rep("abb", k), rep("ba", k) + "b"} }},
+		{"capture-in-deep-loop-then-backref", []gen.Node{x, star(gen.Capture{Name: "v", Body: ab}, false), cc, gen.BackRef{Name: "v"}}, func(k int) []string {
+			return []string{"x" + rep("ab", k) + "cb", "x" + rep("ab", k) + "ca", "x" + rep("ba", k) + "ca"}
+		}},
+		{"negated-list-run", []gen.Node{x, gen.Loop{Min: 1, Max: -1, Form: "atleast", Body: gen.In{Not: true, Items: []gen.ListItem{{Kind: "lit", S: "c"}, {Kind: "class", Class: "digit"}}}}, cc}, func(k int) []string {
+			return []string{"x" + rep("ab", k) + "c", "x" + rep("ab", k) + "7c", "x" + rep("ab", k)}
+		}},
+	}
+}
+
+// counted loops whose bounds ARE the large number
+func c01CountedTemplates(k int) []c01DeepTemplate {
+	a := gen.Lit{S: "a"}
+	x, b := gen.Lit{S: "x"}, gen.Lit{S: "b"}
+	tx := func(k int) []string {
+		return []string{"x" + rep("a", k-1) + "b", "x" + rep("a", k) + "b", "x" + rep("a", k+1) + "b", "x" + rep("a", 2*k) + "b", "x" + rep("a", 2*k+1) + "b", "xb"}
+	}
+	return []c01DeepTemplate{
+		{"exactly-k", []gen.Node{x, gen.Loop{Min: k, Max: k, Form: "exactly", Body: a}, b}, tx},
+		{"at-least-k", []gen.Node{x, gen.Loop{Min: k, Max: -1, Form: "atleast", Body: a}, b}, tx},
+		{"at-most-k", []gen.Node{x, gen.Loop{Min: 0, Max: k, Form: "atmost", Body: a}, b}, tx},
+		{"between-k-and-2k", []gen.Node{x, gen.Loop{Min: k, Max: 2 * k, Form: "between", Body: a}, b}, tx},
+		{"between-k-and-2k-fewest", []gen.Node{x, gen.Loop{Min: k, Max: 2 * k, Form: "between", Lazy: true, Body: a}, gen.Loop{Min: 0, Max: -1, Form: "atleast", Body: a}, b}, tx},
+	}
+}
+
+func c01Deep(r *drv.Run) {
+	ks := []int{10, 63, 64, 65, 127, 128, 129, 255, 256, 257, 511, 512, 513}
+	cks := []int{15, 16, 17, 31, 32, 33, 63, 64, 65, 100, 127, 128, 129}
+	if !quick(r) {
+		ks = append(ks, 767, 1023, 1024, 1025, 1400)
+		cks = append(cks, 255, 256, 257, 300)
+	}
+	type item struct {
+		name string
+		k    int
+		cs   *c01Case
+	}
+	var items []item
+	mk := func(t c01DeepTemplate, k int) {
+		p := &gen.Program{Commands: []gen.Command{{Amount: gen.Amount{Kind: "all"}, Body: t.body}}}
+		var texts [][]byte
+		for _, s := range t.texts(k) {
+			texts = append(texts, []byte(s))
+		}
+		items = append(items, item{t.name, k, &c01Case{p, gen.RenderProgram(p), texts}})
+	}
+	for _, t := range c01DeepTemplates() {
+		for _, k := range ks {
+			mk(t, k)
+		}
+	}
+	for _, k := range cks {
+		for _, t := range c01CountedTemplates(k) {
+			mk(t, k)
+		}
+	}
+	r.Exec(len(items), drv.ExecOpts{Batch: 4}, func(i int) *drv.Item {
+		it := items[i]
+		cs := it.cs
+		c := wire.Case{Op: "run", Src: []byte(cs.src), Texts: cs.texts, StepBudget: 20_000_000}
+		return &drv.Item{Case: c, Check: func(res *wire.Result) {
+			if crashOrGuard(r, res, &c, cs.src, false) {
+				return
+			}
+			if compileTrouble(r, res, &c, cs.src, false) {
+				return
+			}
+			body := cs.prog.Commands[0].Body
+			for ti, text := range cs.texts {
+				if ti >= len(res.Runs) {
+					break
+				}
+				run := &res.Runs[ti]
+				r.Eval(1)
+				if runTrouble(r, run, &c, cs.src, text, false) {
+					continue
+				}
+				alts, gaveUp := expectedScans(cs.prog, body, string(text), 20_000_000)
+				if gaveUp {
+					r.Count("reference_gave_up", 1)
+					continue
+				}
+				exp := refSpans(alts[0])
+				got := spansOf(run.Matches)
+				if !sameSpans(got, exp) {
+					r.Violate(&drv.Violation{Sig: "deep:" + it.name + ":spans-differ", Src: cs.src, Text: oneLineN(string(text), 120), Case: &c,
+						Detail: map[string]any{"k": it.k, "text_length": len(text), "expected": oneLineN(fmtSpans(exp), 200), "observed": oneLineN(fmtSpans(got), 200), "max_backtrack_depth": run.MaxBT, "max_call_depth": run.MaxCall}})
+					continue
+				}
+				r.Count("deep_runs_verified", 1)
+				r.Max("deep_backtrack_depth", run.MaxBT)
+				r.Max("deep_call_depth", run.MaxCall)
+				r.Max("deep_matches_in_one_run", len(exp))
+				if len(exp) > 0 {
+					r.Nontrivial(cs.src + "\x00" + string(text))
+				}
+			}
+		}}
+	})
+}
+
+// ---- caseless literals beyond ASCII: every ordered pair of letters from case-folding orbits with more than one
+// lower-case member (sigma, mu, theta, phi, the dz digraph), accented Latin, Cyrillic -------------------------
+
+func c01Caseless(r *drv.Run) {
+	letters := []string{"Σ", "σ", "ς", "µ", "μ", "Μ", "ϑ", "θ", "Θ", "ϕ", "φ", "Φ", "é", "É", "è", "я", "Я", "ǅ", "ǆ", "Ǆ", "ö", "Ö", "k", "K", "s", "S"}
+	type cse struct {
+		cs *c01Case
+	}
+	var cases []*c01Case
+	mk := func(body []gen.Node, texts ...string) {
+		p := &gen.Program{Commands: []gen.Command{{Amount: gen.Amount{Kind: "all"}, Body: body}}}
+		var tx [][]byte
+		for _, t := range texts {
+			tx = append(tx, []byte(t))
+		}
+		cases = append(cases, &c01Case{p, gen.RenderProgram(p), tx})
+	}
+	for _, a := range letters {
+		var texts []string
+		for _, b := range letters {
+			texts = append(texts, b+" x"+b+b, "a"+b)
+		}
+		mk([]gen.Node{gen.Lit{S: a, Caseless: true}}, texts...)
+		mk([]gen.Node{gen.Lit{S: "x"}, gen.Loop{Min: 1, Max: -1, Form: "atleast", Body: gen.Or{Alts: []gen.Node{gen.Lit{S: a, Caseless: true}, gen.Lit{S: "y"}}}}}, texts...)
+		mk([]gen.Node{gen.In{Items: []gen.ListItem{{Kind: "lit", S: a, Caseless: true}, {Kind: "lit", S: "x"}}}}, texts...)
+	}
+	words := [][2]string{{"ΟΔΟΣ", "οδος ΟΔΟΣ οδοσ Οδός"}, {"straße", "STRASSE straße STRAßE"}, {"ǆungla", "Ǆungla ǅungla ǆungla"}, {"привет", "ПРИВЕТ Привет привет"}, {"µm", "μm µm ΜM µM"}}
+	for _, w := range words {
+		mk([]gen.Node{gen.Lit{S: w[0], Caseless: true}}, w[1])
+		mk([]gen.Node{gen.Lit{S: w[0], Caseless: true, Not: false}, gen.Class{Kind: "whitespace"}}, w[1]+" ")
+	}
+	r.Exec(len(cases), drv.ExecOpts{Batch: 20}, func(i int) *drv.Item {
+		cs := cases[i]
+		c := wire.Case{Op: "run", Src: []byte(cs.src), Texts: cs.texts, StepBudget: 400000}
+		return &drv.Item{Case: c, Check: func(res *wire.Result) {
+			if crashOrGuard(r, res, &c, cs.src, false) || compileTrouble(r, res, &c, cs.src, false) {
+				return
+			}
+			body := cs.prog.Commands[0].Body
+			for ti, text := range cs.texts {
+				if ti >= len(res.Runs) {
+					break
+				}
+				run := &res.Runs[ti]
+				r.Eval(1)
+				if runTrouble(r, run, &c, cs.src, text, false) {
+					continue
+				}
+				alts, gaveUp := expectedScans(cs.prog, body, string(text), 400000)
+				if gaveUp {
+					continue
+				}
+				exp, got := refSpans(alts[0]), spansOf(run.Matches)
+				if !sameSpans(got, exp) {
+					r.Violate(&drv.Violation{Sig: "caseless-beyond-ascii:spans-differ", Src: cs.src, Text: string(text), Case: &c,
+						Detail: map[string]any{"expected": fmtSpans(exp), "observed": fmtSpans(got)}})
+					continue
+				}
+				r.Count("caseless_non_ascii_runs_verified", 1)
+				if len(exp) > 0 {
+					r.Nontrivial(cs.src + "\x00" + string(text))
+					r.Count("caseless_non_ascii_runs_with_match", 1)
+				}
+			}
+		}}
+	})
 }
